@@ -437,6 +437,38 @@ pub fn run(tier: Tier) -> i32 {
             }
         }
     }
+    // deviation bound 2 on the header: every pair of header numbers (gate count, wire count, party
+    // and output declarations) replaced jointly by every pair of boundary numbers
+    {
+        let nums = ["0", "1", "2", "4294967296", "9223372036854775808", "18446744073709551615", "18446744073709551614"];
+        for t in small_exports.iter().take(tier.pick(3, 12)) {
+            let lines: Vec<&str> = t.lines().collect();
+            if lines.len() < 3 {
+                continue;
+            }
+            let header: Vec<Vec<String>> = lines[..3].iter().map(|l| l.split_whitespace().map(|s| s.to_string()).collect()).collect();
+            let mut pos: Vec<(usize, usize)> = vec![];
+            for (li, l) in header.iter().enumerate() {
+                for ti in 0..l.len().min(4) {
+                    pos.push((li, ti));
+                }
+            }
+            for x in 0..pos.len() {
+                for y in (x + 1)..pos.len() {
+                    for a in nums {
+                        for b in nums {
+                            let mut h = header.clone();
+                            h[pos[x].0][pos[x].1] = a.to_string();
+                            h[pos[y].0][pos[y].1] = b.to_string();
+                            let mut out: Vec<String> = h.iter().map(|l| l.join(" ")).collect();
+                            out.extend(lines[3..].iter().map(|l| l.to_string()));
+                            files.push(("header-pair".into(), out.join("\n").into_bytes()));
+                        }
+                    }
+                }
+            }
+        }
+    }
     let line_alpha = ["1 3", "1 1", "2 1 1", "1 2", "0 0", "2 1 0 1 2 XOR", "1 1 0 1 INV", "2 1 0 0 2 AND", "", "1 0", "18446744073709551615 1", "3 2"];
     for a in line_alpha {
         files.push(("short-file".into(), a.as_bytes().to_vec()));
